@@ -27,6 +27,14 @@ def run(rep, tier, seed, replay=None):
                 or 'compute_hidden_layout' in c or 'compute_root_layout' in c or 'block' in c.lower()])
     _blockreal.real_tree_k(rep, 'C16', binp, seed + 1616, 3000 if tier != 'quick' or esc else 300)
     _blockreal.real_chain_k(rep, 'C16', binp)
+    # ---- wave 7a: the COMPLETE engine (block + flex + grid + leaves) under the real cache: random mixed trees + deterministic chains
+    # mixing the three container kinds (typical styles of the corpus below), layouts bit for bit, counts exactly; and the replay of the
+    # computed chain theorems (C16_real_chain_growth_refuted = the known finding as a model theorem; C16_real_flex_chain_bound_partial)
+    from . import _taffyreal
+    esc7 = esc or bool([c for c in changed if 'flex' in c.lower() or 'grid' in c.lower() or 'leaf' in c.lower()])
+    _taffyreal.real_tree_k(rep, 'C16', binp, seed + 1716, 2000 if tier != 'quick' or esc7 else 200)
+    _taffyreal.real_chain_k(rep, 'C16', binp, _taffyreal.thorough_chain_spans() if tier != 'quick' or esc7 else None)
+    _taffyreal.chain_witnesses(rep, binp)
     base = json.load(open(os.path.join(ROOT, 'corpus', 'C16-typical-baseline.json')))['failing']
     rc, out = vh(binp, ['c16', 'typical', 0, 0, NTYP], timeout=600)
     if 'DONE' not in out:
@@ -76,8 +84,9 @@ def run(rep, tier, seed, replay=None):
                               'size entry) are machine-checked for the engine skeleton. The numeric bound depends on the real algorithms\' query '
                               'sequences and the 9 lossy slots; for trees of block containers and leaves it is now the count of an executable '
                               'model (engine + real cache, Model/EngineReal.v) compared count for count on every run (blocktree_real_cache, '
-                              'block_chains_real_cache; C16_real_miss_count, C16_real_chain_bound_partial); for flex / grid trees it is only '
-                              'explored: %d deterministic chains (depths 9/18/36/63, 9 typical container '
+                              'block_chains_real_cache; C16_real_miss_count, C16_real_chain_bound_partial), and since wave 7a the same for ALL '
+                              'node kinds (taffytree_real_cache, taffy_chains_real_cache; C16_real_taffy_pass_counts; the known finding is the '
+                              'model theorem C16_real_chain_growth_refuted, replayed). The bound itself is explored: %d deterministic chains (depths 9/18/36/63, 9 typical container '
                               'styles in period-3 mixes, 3 leaves, 3 available spaces) against the recorded baseline, and %d random fresh trees '
                               'against 64 x node count.' % (NTYP, n))
     rep.cov['rule'] = 'distinct = distinct chain/tree inputs; non-trivial = every case lays out a tree with a measured leaf and counts measure calls'
